@@ -104,7 +104,8 @@ class CFG:
         self.g = nx.DiGraph()
         self.stmt: Dict[int, ast.AST] = {}
         self.label: Dict[int, str] = {ENTRY: "ENTRY", EXIT: "EXIT", RAISE: "RAISE"}
-        self.node_of: Dict[int, int] = {}  # id(ast stmt) -> node
+        self.node_of: Dict[int, int] = {}  # id(ast stmt) -> node (the normal-continuation copy)
+        self.all_nodes_of: Dict[int, List[int]] = {}  # id(ast stmt) -> every copy (finally bodies are built twice)
         self._n = 3
         for s in (ENTRY, EXIT, RAISE):
             self.g.add_node(s)
@@ -126,6 +127,7 @@ class CFG:
         self.label[n] = label or type(stmt).__name__
         if id(stmt) not in self.node_of:
             self.node_of[id(stmt)] = n
+        self.all_nodes_of.setdefault(id(stmt), []).append(n)
         return n
 
     def _edge(self, a: int, b: int, kind: str = "seq"):
@@ -172,7 +174,8 @@ class CFG:
         # Inside a try-block the author expects the body to be able to raise what the handlers catch
         # (KeyError from a subscript, AttributeError from an attribute ...): give every non-trivial statement
         # an edge to the handlers of the *innermost* try only (never outward: no spurious RAISE exits).
-        if self._handlers and any(isinstance(x, (ast.Call, ast.Subscript, ast.Attribute, ast.BinOp)) for x in ast.walk(node)):
+        if self._handlers and self._handlers[-1][2] != "finally" \
+                and any(isinstance(x, (ast.Call, ast.Subscript, ast.Attribute, ast.BinOp)) for x in ast.walk(node)):
             for h in self._handlers[-1][0]:
                 self._edge(n, h, "exc")
 
@@ -303,6 +306,16 @@ class CFG:
             if h.type is None or norm(h.type) in ("Exception", "BaseException"):
                 catches_all = True
         has_finally = bool(st.finalbody)
+        fin = None
+        if has_finally:
+            # every exception leaving the body / handlers / else passes through the finally block: a pseudo-handler
+            # that catches everything, runs a second copy of the finally body and re-raises outward
+            fin = self._n
+            self._n += 1
+            self.g.add_node(fin)
+            self.stmt[fin] = st
+            self.label[fin] = "FinallyExc"
+            self._handlers.append(([fin], True, "finally"))
         self._handlers.append((entry_nodes, catches_all, None))
         outs = self._body(st.body, preds)
         self._handlers.pop()
@@ -313,9 +326,14 @@ class CFG:
                 continue  # handler unreachable under this specialisation
             outs += self._body(h.body, [(hn, "seq")])
         if has_finally:
-            # approximate: finally body executed on the normal continuation; exceptional
-            # continuation through finally is modelled by a second copy ending in RAISE
-            outs = self._body(st.finalbody, outs)
+            self._handlers.pop()
+            outs = self._body(st.finalbody, outs)  # normal continuation (built first: it owns node_of)
+            if self.g.in_degree(fin) > 0:
+                for p, _k in self._body(st.finalbody, [(fin, "seq")]):
+                    self._exc_target(p)  # the pending exception continues outward
+            else:
+                self.g.remove_node(fin)
+                del self.stmt[fin], self.label[fin]
         return outs
 
     # -------------------------------------------------------------- queries
